@@ -90,7 +90,9 @@ MAXV = 4  # violations reported per task and clause
 EXTRA_DEPTH = {'UnitSquare': 3, 'Circle': 3}  # thorough tier only
 
 CURVES = ('UnitSquare', 'PiSquare', 'LShapeDriver', 'Circle')
-DOMAIN = {'UnitSquare': 'UnitSquare', 'PiSquare': 'PiSquare', 'LShapeDriver': 'LShape', 'Circle': 'Circle'}
+DOMAIN = {'UnitSquare': 'UnitSquare', 'PiSquare': 'PiSquare', 'LShapeDriver': 'LShape', 'Circle': 'Circle',
+          'UnitSquareT': 'UnitSquare', 'CircleT': 'Circle', 'UnitSquareX': 'UnitSquare'}
+CUSTOM_GRIDS = ('UnitSquareT', 'CircleT', 'UnitSquareX')  # non-uniform custom tensor grids (value clauses, data without initial condition)
 INITIAL_MESH = {'UnitSquare': 'UnitSquareBoundaryRefined', 'PiSquare': 'PiSquareBoundaryRefined',
                 'LShapeDriver': 'LShapeBoundaryRefined'}
 # problem -> (g problem or None, M0 problem or None)
@@ -705,6 +707,13 @@ def _plan(ctx):
             prol_items.append((c, h, not quick))
         # the once uniformly refined initial mesh (16 / 16 / 32 / 16 elements -> 64..128 after quartering)
         mesh_items.append((c, (), 1, ['Dirichlet', 'MildSingular'], not quick, None, ctx.seed))
+    # custom non-uniform tensor grids: equal levels do not mean equal sizes there
+    for c in CUSTOM_GRIDS:
+        hs = meshmc.all_states(ctx, c, 0 if quick else 1, key='leaf')
+        per[c] = {'depth': 0 if quick else 1, 'leaf_set_distinct_states': len(hs)}
+        for h in hs:
+            mesh_items.append((c, h, 0, ['Dirichlet', 'MildSingular'], True, None, ctx.seed))
+            prol_items.append((c, h, not quick))
     # thorough: one more BFS level on two curves (value clauses only)
     if not quick:
         for c, d in EXTRA_DEPTH.items():
